@@ -27,7 +27,8 @@ def run(ctx):
     for w in range(ctx.pick(2, 6)):
       r_ops, w_ops = cachesys.gen_workload(ctx.rng, nmetrics=2, nts=2, nstores=ctx.pick(4, 5), ndrains=2,
                                            nqueries=1, ticks=(st == 'timesorted'))
-      cfg = dict(strategy=st, max=None, flow=False, lag=0)
+      # bounded and unbounded cache (a full cache must still take updates of cached timestamps)
+      cfg = dict(strategy=st, max=(None if w % 2 == 0 else 2), flow=False, lag=0)
       expl.append((cfg, r_ops, w_ops, ctx.pick(1, 2), ctx.pick(40, 300), ctx.pick(150, 3000)))
   cachecheck.run_plan(ctx, 'C02', models, sims, expl)
 
